@@ -542,7 +542,7 @@ func (h *history) evalState(t failer, datLen int64, n int, seq int) bool {
 // ------------------------------------------------------------------ properties
 
 func genKind(t *rapid.T) storage.NeedleMapKind {
-	if rapid.IntRange(0, 2).Draw(t, "leveldb") == 0 {
+	if rapid.IntRange(0, 3).Draw(t, "leveldb") == 0 {
 		return storage.NeedleMapLevelDb
 	}
 	return storage.NeedleMapInMemory
@@ -551,7 +551,7 @@ func genKind(t *rapid.T) storage.NeedleMapKind {
 // TestPropCrashSampled: structured + random crash points of generated histories.
 func TestPropCrashSampled(t *testing.T) {
 	quietGlog()
-	vlib.Check(t, 120, 1500, func(t *rapid.T) {
+	vlib.Check(t, 64, 900, func(t *rapid.T) {
 		kind := genKind(t)
 		ops := genOps(t, 5, 25, 600)
 		h := runHistory(t, kind, ops)
@@ -580,10 +580,10 @@ func TestPropCrashSampled(t *testing.T) {
 			h.evalState(t, off, m, seq)
 			if m > 0 {
 				n := m - 1
-				switch rapid.IntRange(0, 3).Draw(t, "idxChoice") {
-				case 0:
+				switch c := rapid.IntRange(0, 9).Draw(t, "idxChoice"); {
+				case c == 0:
 					n = 0
-				case 1:
+				case c < 5:
 					n = rapid.IntRange(0, m-1).Draw(t, "idxN")
 				}
 				seq++
@@ -597,8 +597,8 @@ func TestPropCrashSampled(t *testing.T) {
 // index prefix, for small histories.
 func TestPropCrashEveryByte(t *testing.T) {
 	quietGlog()
-	maxOps, maxLen := vlib.Pick(4, 9), vlib.Pick(12, 40)
-	vlib.Check(t, 4, 96, func(t *rapid.T) {
+	maxOps, maxLen := vlib.Pick(3, 8), vlib.Pick(12, 40)
+	vlib.Check(t, 8, 60, func(t *rapid.T) {
 		kind := genKind(t)
 		ops := genOps(t, 2, maxOps, maxLen)
 		h := runHistory(t, kind, ops)
